@@ -545,3 +545,50 @@ func lemmaHeaderRoundTrip(f *TimeBucketInfo) {
 //@ ensures #first: err == nil && nmds != nil && nmds.StartIndex != nmds.Lengths && nmds.NumpyDataset.Length == nds.Length
 //@ ensures #start: forallstr(k, pattern(nmds.StartIndex[k]), in(k, nmds.StartIndex) ==> nmds.StartIndex[k] == 0)
 //@ ensures #lengths: forallstr(k, pattern(nmds.Lengths[k]), in(k, nmds.Lengths) ==> nmds.Lengths[k] == nds.Length)
+
+// ---------------------------------------------------------------------------------------------
+// C29: the row length a RowSeries reads with is the record length the serializer wrote with (alignment padding
+// included). shapesLen(b, n): sum of the element sizes of the n data shapes at address b (abstract);
+// serializedRecLen(b): record length of the serialized rows stored at address b (typestate set by the serializer).
+//@ ghost func shapesLen(b int, n int) int
+//@ ghost func serializedRecLen(b int) int
+
+//@ func AlignedSize
+//@ props C29
+//@ requires #nonneg: unalignedSize >= 0 && unalignedSize <= 1000000000000
+//@ ensures #aligned: mod(alignedSize, 8) == 0 && alignedSize >= unalignedSize && alignedSize - unalignedSize < 8
+
+//@ func (*Rows).GetRowLen
+//@ trusted "returns the explicit row length if one was set, else the sum of the element sizes (and caches it)"
+//@ modifies mem:utils.io.Rows
+//@ ensures #value: rowLength == ite(old(rows.rowLen) != 0, old(rows.rowLen), shapesLen(base(rows.dataShape), len(rows.dataShape)))
+//@ ensures #cached: rows.rowLen == rowLength && rows.data == old(rows.data) && rows.dataShape == old(rows.dataShape)
+//@ ensures #others: forallint(p, pattern(at(rows, p)), p != rows ==> at(rows, p) == old(at(rows, p)))
+
+//@ func (*Rows).SetRowLen
+//@ props C29
+//@ ensures #max: rows.rowLen == ite(rowLen < ite(old(rows.rowLen) != 0, old(rows.rowLen), shapesLen(base(rows.dataShape), len(rows.dataShape))), ite(old(rows.rowLen) != 0, old(rows.rowLen), shapesLen(base(rows.dataShape), len(rows.dataShape))), rowLen)
+//@ ensures #kept: rows.data == old(rows.data) && rows.dataShape == old(rows.dataShape)
+
+//@ func NewRows
+//@ props C29
+//@ ensures #new: fresh(result) && result.data == data && result.dataShape == dataShape && result.rowLen == 0
+
+//@ func NewRowSeries
+//@ props C29
+//@ ensures #rows: result != nil && result.rows != nil && result.rows.data == data
+//@ ensures #rowLen: rowType != VARIABLE ==> result.rows.rowLen == ite(rowLen < shapesLen(base(dataShape), len(dataShape)), shapesLen(base(dataShape), len(dataShape)), rowLen)
+
+//@ func (*ColumnSeries).GetDataShapes
+//@ trusted "data shapes of the columns in order (reflect on the column types)"
+//@ modifies none
+
+//@ func SerializeColumnsToRows
+//@ trusted "row serializer (reflect, unsafe column access): only the record length typestate is stated: the returned length is the padded sum of the element sizes of the shapes it was given and is what every row of data occupies"
+//@ modifies all
+//@ marks #recLen: err == nil ==> (serializedRecLen(base(data)) == recordLen && recordLen >= shapesLen(base(dataShapes), len(dataShapes)) && recordLen >= 8)
+
+// ToRowSeries hands the reader the serializer's record length: the rows are read back with the stride they were written with.
+//@ func (*ColumnSeries).ToRowSeries
+//@ props C29
+//@ ensures #stride: err == nil ==> (rs != nil && rs.rows != nil && rs.rows.rowLen == serializedRecLen(base(rs.rows.data)))
